@@ -537,6 +537,13 @@ class LibMap:
             if name in ("addressof", "__addressof"):
                 return em.addr_of(args[0])
             return em.E(args[0])
+        if name in ("make_unique", "make_shared") and len(args) == 1:
+            # smart pointer to a scalar / string value: same as `new T(v)` (smart pointers are plain pointers)
+            ct = self.mapped(em, n)
+            if ct and ct.endswith("*") and not ct.startswith("struct ") and self.mapped(em, args[0]) == ct[:-1]:
+                cn = "vf_new_" + em.tm.tag(ct[:-1])
+                em.lifted_new.add((cn, ct[:-1]))
+                return "%s(%s)" % (cn, em.E(args[0]))
         if name in ("find", "count", "remove") and len(args) == 3:
             ct = self.mapped(em, args[0])
             if ct and ct.endswith("*"):
